@@ -17,7 +17,7 @@ RULE = ('Documents: fixtures; generated documents (charset E, markup-rich value 
         'non-trivial = distinct documents whose error messages echo >=1 markup canary.')
 ASSUMPTIONS = ['a segment without any element is listed as "SEG*~" by design of the formatter (don\'t-care)', 'messages of interchange/group/set level errors are not located (the property names segment- and element-level errors)',
                'blanks are rendered as &nbsp;: U+00A0 and U+0020 are identified when comparing']
-REQUIRED_COUNTERS = ['cli:invocations', 'cli:reports-compared', 'docs:envelope-element-findings', 'inputs:envelope-soup', 'docs', 'docs:with-errors', 'seg-lines-compared', 'messages-located', 'messages-with-canary', 'docs:multi-interchange', 'docs:other-delimiters']
+REQUIRED_COUNTERS = ['docs:cut-off-with-markup-in-control-numbers', 'cli:invocations', 'cli:reports-compared', 'docs:envelope-element-findings', 'inputs:envelope-soup', 'docs', 'docs:with-errors', 'seg-lines-compared', 'messages-located', 'messages-with-canary', 'docs:multi-interchange', 'docs:other-delimiters']
 MIN_CASES = {'quick': 500, 'thorough': 15000}
 WATCHDOG_S = {'quick': 1200, 'thorough': 7200}
 
@@ -386,7 +386,7 @@ def run(ctx):
             continue
         if len(doc.recs) > 250:
             continue
-        fam = rng.choice(['valid', 'faults', 'faults', 'canaries', 'canaries', 'mutated', 'soup', 'envelope-elements'])
+        fam = rng.choice(['valid', 'faults', 'faults', 'canaries', 'canaries', 'mutated', 'soup', 'envelope-elements', 'cut-off-with-markup-in-control-numbers'])
         kinds = [fam]
         if fam in ('faults', 'mutated'):
             for _ in range(rng.randint(1, 6)):
@@ -412,9 +412,34 @@ def run(ctx):
                 if r.node.id == 'GS' and rng.random() < 0.4:
                     r.vals[4] = '2561'
             ctx.count('docs:envelope-element-findings')
+        cut_off = False
+        if fam == 'cut-off-with-markup-in-control-numbers':
+            # the file breaks off before its trailers; the messages about the missing SE / GE / IEA (written at the end of the report) quote
+            # ST02 / GS06 / ISA13, which here carry markup characters
+            doc = faults.clone(doc)
+            cn = ''.join(c for c in rng.choice(['00<&>1', '<i>7</i>', '<b>', '&lt;9', '1<2>3']) if c not in terms)
+            for r in doc.recs:
+                if r.node.id in ('ST', 'SE'):
+                    r.vals[1] = cn
+                elif r.node.id == 'GS':
+                    r.vals[5] = cn[:9]
+                elif r.node.id == 'GE':
+                    r.vals[1] = cn[:9]
+                elif r.node.id == 'ISA':
+                    r.vals[12] = cn.ljust(9)[:9]
+                elif r.node.id == 'IEA':
+                    r.vals[1] = cn.ljust(9)[:9]
+            cut_off = True
+            ctx.count('docs:cut-off-with-markup-in-control-numbers')
         if fam == 'canaries':
             doc = plant_canaries(rng, doc, rng.randint(1, 5), terms)
         text = doc.text(terms[0], terms[1], terms[2], '\n' if terms[0] != '\n' else '')
+        if cut_off:
+            unit = terms[0] + ('\n' if terms[0] != '\n' else '')
+            parts_ = text.split(unit)
+            last_se = max((i_ for i_, x_ in enumerate(parts_) if x_.startswith('SE' + terms[1])), default=None)
+            if last_se:
+                text = unit.join(parts_[:last_se]) + unit          # everything from the last SE on is missing
         if fam == 'soup':
             text = mutate.envelope_soup(rng, e['icvn'])
             terms = ('~', '*', ':')
